@@ -109,6 +109,7 @@ impl W {
 pub fn run(seed: u64, ntraces: usize) {
     let mut r = Rng::new(seed ^ 0x175);
     for t in 0..ntraces {
+        let d = t % 14;      // which directed schedule opens the trace
         let mut w = World::new();
         let owner = user_addr(1); let operator = user_addr(2); let relayer = user_addr(3);
         let users = vec![user_addr(4), user_addr(5), user_addr(6)]; let dest = user_addr(7);
@@ -124,7 +125,7 @@ pub fn run(seed: u64, ntraces: usize) {
         w.deploy(&owner, &gas, b"gas", vec![owner.to_vec()]);
         let mut params = vec![0u8]; params.push(1); params.extend(nested_buf(b"EGLD"));
         w.deploy(&owner, &tmt, b"tm", vec![owner.to_vec(), vec![2u8], vec![0u8; 32], params]);
-        let hub_set = r.chance(5, 6) || t % 10 == 6 || t % 10 == 1;
+        let hub_set = r.chance(5, 6) || d == 6 || d == 1 || d >= 10;
         let mut chains: Vec<(Vec<u8>, Vec<u8>)> = vec![(b"ethereum".to_vec(), b"0xITSeth".to_vec()), (b"avalanche".to_vec(), b"hub".to_vec()), (b"polygon".to_vec(), b"0xITSpoly".to_vec())];
         if hub_set { chains.push((b"axelar".to_vec(), b"axelar1hub".to_vec())); }
         let mut args = vec![gw.to_vec(), gas.to_vec(), tmt.to_vec(), operator.to_vec(), b"multiversx".to_vec(), big(chains.len() as u64)];
@@ -144,7 +145,7 @@ pub fn run(seed: u64, ntraces: usize) {
 
         let mut script: Vec<u64> = vec![];
         // --- directed schedules (every 10th trace): the recorded findings F-C08-1 and F-C17-2
-        if t % 10 == 0 {
+        if d == 0 {
             let u = g.users[0].clone();
             let (ok, rets, dep) = g.its_tx("registerCanonical", &u, "registerCanonicalInterchainToken", vec![tok.clone()], 0, &[], json!({"token": hx(&tok)}));
             if ok {
@@ -166,7 +167,7 @@ pub fn run(seed: u64, ntraces: usize) {
                 script.extend([21u64, 20]);          // deliver (forced failure), then callback
             }
         }
-        if t % 10 == 5 {
+        if d == 5 {
             let u = g.users[1].clone();
             let (ok, rets, dep) = g.its_tx("registerCanonical", &u, "registerCanonicalInterchainToken", vec![tok.clone()], 0, &[], json!({"token": hx(&tok)}));
             if ok {
@@ -177,14 +178,14 @@ pub fn run(seed: u64, ntraces: usize) {
                 script.extend([22u64, 10]);          // lookup succeeds while paused, then unpause
             }
         }
-        if t % 10 == 8 {   // F-C17-1: hub address removed before the metadata lookup returns
+        if d == 8 {   // F-C17-1: hub address removed before the metadata lookup returns
             let u = g.users[1].clone();
             g.its_tx("registerMetadata", &u, "registerTokenMetadata", vec![tok.clone()], 777, &[], json!({"token": hx(&tok)}));
             let ow = g.owner.clone();
             g.its_tx("removeTrusted", &ow, "removeTrustedAddress", vec![b"axelar".to_vec()], 0, &[], json!({"chain": hx(b"axelar")}));
             script.extend([22u64]);
         }
-        if t % 10 == 9 {   // F-C17-5: empty destination chain: the callback falls into the local branch
+        if d == 9 {   // F-C17-5: empty destination chain: the callback falls into the local branch
             let u = g.users[0].clone();
             let (ok, rets, dep) = g.its_tx("registerCanonical", &u, "registerCanonicalInterchainToken", vec![tok.clone()], 0, &[], json!({"token": hx(&tok)}));
             if ok {
@@ -193,37 +194,52 @@ pub fn run(seed: u64, ntraces: usize) {
                 script.extend([22u64]);
             }
         }
-        if t % 10 == 2 || t % 10 == 3 || t % 10 == 7 || t % 10 == 4 {
+        if d == 2 || d == 3 || d == 7 || d == 4 {
             // local deployment driven step by step: (2) two issuances in flight, (3) the service named as minter, (7) steps under pause, (4) no minter: the mint step repeated
             let u = g.users[2].clone(); let salt = r.bytes(32); let supply = 1000u64;
-            let minter = if t % 10 == 3 { g.its.to_vec() } else if t % 10 == 4 { vec![0u8; 32] } else { g.users[0].to_vec() };
+            let minter = if d == 3 { g.its.to_vec() } else if d == 4 { vec![0u8; 32] } else { g.users[0].to_vec() };
             let dt = |g: &mut W, egld: u64| -> (bool, Vec<Vec<u8>>, Option<VMAddress>) {
                 g.its_tx("deployToken", &u, "deployInterchainToken", vec![salt.clone(), b"MyToken".to_vec(), b"MTK".to_vec(), vec![18], big(supply), minter.clone()], egld, &[],
                     json!({"salt": hx(&salt), "name": hx(b"MyToken"), "symbol": hx(b"MTK"), "decimals": 18, "supply": supply.to_string(), "minter": hx(&minter)})) };
             let (ok, rets, dep) = dt(&mut g, 0);
             if ok { if let Some(tm) = dep { g.toks.push(Tok { id: rets.last().unwrap().clone(), kind: "native", tm, token: None, salt: salt.clone(), deployer: u.clone(), supply, minter: minter.clone(), custody: 0 }); } }
             dt(&mut g, ISSUE_COST);
-            if t % 10 == 2 { dt(&mut g, ISSUE_COST); }                 // a second issuance before the first callback
+            if d == 2 { dt(&mut g, ISSUE_COST); }                 // a second issuance before the first callback
             script.extend([23u64]);                                    // first issuance succeeds
-            if t % 10 == 7 { script.extend([10u64, 2, 15, 10]); }       // pause, try step 3 and a remote deployment, unpause
+            if d == 2 || d == 4 { script.push(42); }                   // between issuance and the mint step the service is the manager's minter
+            if d == 7 { script.extend([10u64, 2, 15, 10]); }       // pause, try step 3 and a remote deployment, unpause
             else { script.extend([3u64, 23, 3, 3]); }
-            if t % 10 == 2 { script.extend([40u64, 19, 41, 40, 41]); }   // the minter approves a remote deployment, hands the role on, then the stale approval is used                   // step 3, second issuance callback, step 3 again (twice)
+            if d == 2 { script.extend([40u64, 19, 41, 40, 41]); }   // the minter approves a remote deployment, hands the role on, then the stale approval is used                   // step 3, second issuance callback, step 3 again (twice)
         }
-        if t % 10 == 1 || t % 10 == 6 {
+        if d == 1 || d == 6 || d >= 10 {
             // (1) an inbound link / deploy message for a token id that is already bound; (6) hub-wrapped inbound messages while paused
             let u = g.users[0].clone();
             let (ok, rets, dep) = g.its_tx("registerCanonical", &u, "registerCanonicalInterchainToken", vec![tok.clone()], 0, &[], json!({"token": hx(&tok)}));
             if ok {
                 let tid = rets.last().unwrap().clone();
-                g.toks.push(Tok { id: tid.clone(), kind: "lock", tm: dep.unwrap(), token: Some(tok.clone()), salt: vec![], deployer: u.clone(), supply: 0, minter: vec![], custody: 60 });
-                let e = vec![(tok.clone(), 0u64, bn(60))];
+                g.toks.push(Tok { id: tid.clone(), kind: "lock", tm: dep.unwrap(), token: Some(tok.clone()), salt: vec![], deployer: u.clone(), supply: 0, minter: vec![], custody: 200 });
+                let e = vec![(tok.clone(), 0u64, bn(200))];
                 g.its_tx("transfer", &u, "interchainTransfer", vec![tid.clone(), b"ethereum".to_vec(), b"0xdead".to_vec(), vec![], vec![]], 0, &e,
                     json!({"token_id": hx(&tid), "dchain": hx(b"ethereum"), "daddr": hx(b"0xdead"), "metadata": "", "gas": "0"}));
-                if t % 10 == 1 { script.extend([190u64, 191, 192, 190]); }
-                else {
+                if d == 1 { script.extend([190u64, 191, 192, 190]); }
+                else if d == 6 {
                     let ow = g.owner.clone();
                     let (okp, _, _) = g.its_tx("pause", &ow, "pause", vec![], 0, &[], json!({"paused": true})); if okp { g.paused = true; }
-                    script.extend([162u64, 172, 182, 160, 10, 162]);
+                    script.extend([1602u64, 1702, 1802, 1600, 10, 1602]);
+                }
+                else if d == 10 {   // inbound battery: every routing variant for a transfer without data, the main ones for transfers with data and deployments
+                    for v in 0..12u64 { script.push(1600 + v); }
+                    script.extend([1700u64, 20, 20, 1702, 1709, 1711, 1800, 1802, 1809, 1811]);
+                }
+                else if d == 11 {   // the service is paused while a transfer with data is in flight: failed and successful delivery, direct and hub-wrapped
+                    script.extend([1700u64, 10, 21, 20, 10, 1702, 10, 20, 20, 10, 1700, 21, 10, 20, 10]);
+                }
+                else if d == 12 {   // outbound battery: payment shapes x destination routing, with gas
+                    for sh in [9u64, 8, 0, 1, 2] { for ch in 0..4u64 { script.push(3000 + sh * 10 + ch); } }
+                    for sh in [9u64, 8, 1] { for ch in 0..2u64 { script.push(3500 + sh * 10 + ch); } }
+                }
+                else {              // d == 13: message-type words outside the known range, direct and hub-wrapped
+                    for i in 0..6u64 { script.push(2000 + i); script.push(2100 + i); }
                 }
             }
         }
@@ -231,6 +247,7 @@ pub fn run(seed: u64, ntraces: usize) {
         let nactions = 10 + r.below(14) as usize;
         if script.is_empty() { script = vec![0, 2]; }     // canonical TOK, start a native deployment
         if r.chance(1, 2) { script.push(1); }
+        let nactions = nactions + script.len();
         for _ in 0..nactions {
             g.now += match r.below(6) { 0 => 21600, _ => r.below(300) }; let now = g.now; g.w.set_time(now);
             let anyone = r.pick(&g.users).clone();
@@ -239,9 +256,13 @@ pub fn run(seed: u64, ntraces: usize) {
             let a = if !script.is_empty() { script.remove(0) } else if has_pending && r.chance(1, 2) { 20 } else { *r.pick(&[0u64, 1, 2, 3, 3, 3, 4, 4, 4, 5, 5, 5, 6, 6, 6, 7, 7, 7, 7, 8, 9, 10, 11, 12, 12, 13, 14, 14, 15, 16, 17, 18, 19, 19]) };
             let force_fail = a == 21; let force_props_ok = a == 22; let force_issue_ok = a == 23;
             let a = if a == 21 || a == 22 || a == 23 { 20 } else { a };
-            // 1<a><v>: inbound message kind a (6, 7, 8) in routing variant v; 190..192: inbound link / deploy for an already bound token id (direct, hub-wrapped, deploy)
+            // 1<a><vv>: inbound message kind a (6, 7, 8) in routing variant vv; 20<i> / 21<i>: message-type word i (direct / hub-wrapped); 3<shape><chain> / 35..: outbound transfer / call; 190..192: inbound link / deploy for an already bound token id (direct, hub-wrapped, deploy)
             let mut fvar: Option<u64> = None; let mut fbound: Option<u64> = None;
-            let a = if (190..=192).contains(&a) { fbound = Some(a - 190); fvar = Some(if a == 191 { 2 } else { 0 }); 8 } else if a >= 100 { fvar = Some(a % 10); (a - 100) / 10 } else { a };
+            let mut ftype: Option<u64> = None; let mut fshape: Option<(u64, u64)> = None;
+            let a = if (190..=192).contains(&a) { fbound = Some(a - 190); fvar = Some(if a == 191 { 2 } else { 0 }); 8 }
+                    else if a >= 3000 { let c = a - 3000; fshape = Some(((c % 500) / 10, c % 10)); if c >= 500 { 5 } else { 4 } }
+                    else if a >= 2000 { let c = a - 2000; ftype = Some(c % 100); fvar = Some(if c >= 100 { 2 } else { 0 }); 6 }
+                    else if a >= 1000 { fvar = Some((a - 1000) % 100); (a - 1000) / 100 } else { a };
             match a {
                 0 => { // registerCanonicalInterchainToken
                     let token = match r.below(5) { 0 => b"EGLD".to_vec(), 1 => b"bad".to_vec(), 2 => tok2.clone(), _ => tok.clone() };
@@ -275,12 +296,13 @@ pub fn run(seed: u64, ntraces: usize) {
                 }
                 4 | 5 => { // outbound interchainTransfer / callContractWithInterchainToken
                     if g.toks.is_empty() { continue; }
-                    let ti = r.below(g.toks.len() as u64) as usize;
+                    let ti = if fshape.is_some() { 0 } else { r.below(g.toks.len() as u64) as usize };
                     let (tid, ttok) = (g.toks[ti].id.clone(), g.toks[ti].token.clone().unwrap_or(tok.clone()));
-                    let gasv = match r.below(4) { 0 => 0, _ => 1 + r.below(20) };
-                    let amt = 1 + r.below(60);
+                    let gasv = if fshape.is_some() { 3 + r.below(9) } else { match r.below(4) { 0 => 0, _ => 1 + r.below(20) } };
+                    let amt = 1 + r.below(60) + if fshape.is_some() { gasv } else { 0 };
                     let is_egld = ttok == b"EGLD".to_vec();
-                    let (egld, esdt): (u64, Vec<(Vec<u8>, u64, BigUint)>) = match if is_egld { 4 + r.below(5) } else { r.below(9) } {
+                    let (egld, esdt): (u64, Vec<(Vec<u8>, u64, BigUint)>) = match if let Some((sh, _)) = fshape { sh } else if is_egld { 4 + r.below(5) } else { r.below(10) } {
+                        9 if !is_egld => (0, vec![(ttok.clone(), 0, bn(amt)), (ttok.clone(), 0, bn(gasv))]),                // the same token twice: amount, gas
                         0 => (0, vec![(ttok.clone(), 0, bn(gasv))]),                                          // amount == gas
                         1 => (0, vec![(ttok.clone(), 0, bn(amt)), (tok2.clone(), 0, bn(gasv))]),               // two ESDTs
                         2 => (0, vec![(ttok.clone(), 0, bn(amt)), (tok2.clone(), 0, bn(gasv + 1))]),           // second != gas
@@ -289,17 +311,17 @@ pub fn run(seed: u64, ntraces: usize) {
                         5 if is_egld => (gasv, vec![]),
                         _ => if is_egld { (amt + gasv, vec![]) } else { (0, vec![(ttok.clone(), 0, bn(amt + gasv))]) },
                     };
-                    let dchain = r.pick(&[&b"ethereum"[..], b"avalanche", b"polygon", b"axelar", b"unknown", b"ethereum"]).to_vec();
-                    let daddr = if r.chance(1, 10) { vec![] } else { b"0xdestination".to_vec() };
+                    let dchain = if let Some((_, ch)) = fshape { [&b"ethereum"[..], b"avalanche", b"axelar", b"unknown"][ch as usize].to_vec() } else { r.pick(&[&b"ethereum"[..], b"avalanche", b"polygon", b"axelar", b"unknown", b"ethereum"]).to_vec() };
+                    let daddr = if fshape.is_none() && r.chance(1, 10) { vec![] } else { b"0xdestination".to_vec() };
                     let before_c = g.toks[ti].custody;
                     let _ = before_c;
                     if a == 4 {
-                        let md = match r.below(5) { 0 => vec![], 1 => vec![0, 0, 0, 0], 2 => { let mut v = vec![0, 0, 0, 0]; v.extend(nested_buf(b"hello")); v }, 3 => vec![0, 0, 0, 1], _ => vec![1, 2] };
+                        let md = match if fshape.is_some() { 0 } else { r.below(5) } { 0 => vec![], 1 => vec![0, 0, 0, 0], 2 => { let mut v = vec![0, 0, 0, 0]; v.extend(nested_buf(b"hello")); v }, 3 => vec![0, 0, 0, 1], _ => vec![1, 2] };
                         let (ok, _, _) = g.its_tx("transfer", &anyone, "interchainTransfer", vec![tid.clone(), dchain.clone(), daddr.clone(), md.clone(), big(gasv)], egld, &esdt,
                             json!({"token_id": hx(&tid), "dchain": hx(&dchain), "daddr": hx(&daddr), "metadata": hx(&md), "gas": gasv.to_string()}));
                         if ok { g.toks[ti].custody += amt; }
                     } else {
-                        let data = if r.chance(1, 6) { vec![] } else { b"calldata".to_vec() };
+                        let data = if fshape.is_none() && r.chance(1, 6) { vec![] } else { b"calldata".to_vec() };
                         let (ok, _, _) = g.its_tx("callContract", &anyone, "callContractWithInterchainToken", vec![tid.clone(), dchain.clone(), daddr.clone(), data.clone(), big(gasv)], egld, &esdt,
                             json!({"token_id": hx(&tid), "dchain": hx(&dchain), "daddr": hx(&daddr), "data": hx(&data), "gas": gasv.to_string()}));
                         if ok { g.toks[ti].custody += amt; }
@@ -323,6 +345,8 @@ pub fn run(seed: u64, ntraces: usize) {
                                 deploy_payload(&tid2, b"Remote", b"RMT", 6, &minter)
                              } else { link_payload(&if fbound.is_some() || (ti.is_some() && r.chance(1, 3)) { tid.clone() } else { r.bytes(32) }, *r.pick(&[0u8, 2, 4]), b"0xsrc", if r.chance(1, 5) { b"bad" } else { &tok2[..] }, &if r.chance(1, 2) { vec![] } else { g.operator.to_vec() }) },
                     };
+                    let inner = if let Some(i) = ftype { let mut p = inner.clone(); for b in p[0..32].iter_mut() { *b = 0; }
+                        match i { 0 => p[24] = 0x80, 1 => p[23] = 1, 2 => p[0] = 0x80, 3 => p[31] = 6, 4 => p[31] = 7, _ => p[27] = 1 }; p } else { inner };
                     let variant = if let Some(v) = fvar { v } else if g.paused && r.chance(1, 3) { 2 } else if r.chance(2, 3) { 0 } else { r.below(12) };
                     let (chain, src, payload): (Vec<u8>, Vec<u8>, Vec<u8>) = match variant {
                         1 => (b"avalanche".to_vec(), b"hub".to_vec(), inner.clone()),                                   // direct message from a hub-routed chain
@@ -331,7 +355,7 @@ pub fn run(seed: u64, ntraces: usize) {
                         4 => (b"axelar".to_vec(), b"axelar1hub".to_vec(), inner.clone()),                               // unwrapped from the hub chain
                         5 => (b"ethereum".to_vec(), b"0xattacker".to_vec(), inner.clone()),                             // wrong source address
                         6 => (b"ethereum".to_vec(), b"0xITSeth".to_vec(), hub_wrap(b"avalanche", &inner, 4)),           // wrapper from a non-hub chain
-                        7 => (b"ethereum".to_vec(), b"0xITSeth".to_vec(), { let mut p = inner.clone(); p[31] = 9; p }), // unknown message type
+                        7 => (b"ethereum".to_vec(), b"0xITSeth".to_vec(), { let mut p = inner.clone(); match r.below(4) { 0 => p[24] = 0x80, 1 => p[23] = 1, 2 => p[0] = 0xff, _ => p[31] = 9 }; p }), // unknown message type
                         9 => (b"unknown".to_vec(), vec![], inner.clone()),                                              // chain without a trusted address, empty source address
                         10 => (b"polygon".to_vec(), if r.chance(1, 2) { vec![] } else { b"0xITSpoly".to_vec() }, inner.clone()),  // a chain that may have been removed
                         11 => (b"axelar".to_vec(), b"axelar1hub".to_vec(), hub_wrap(if r.chance(1, 2) { b"unknown" } else { b"polygon" }, &inner, 4)),   // wrapped, original chain unknown / direct
@@ -362,10 +386,10 @@ pub fn run(seed: u64, ntraces: usize) {
                         _ => { g.its_tx("setFlowLimits", &caller, "setFlowLimits", vec![big(1), tid.clone(), big(1), big(l)], 0, &[], json!({"ids": [hx(&tid)], "limits": [l.to_string()]})); }
                     }
                 }
-                10 => { let caller = if r.chance(3, 4) { g.owner.clone() } else { anyone.clone() }; let p = !g.paused;
+                10 => { let caller = if scripted || r.chance(3, 4) { g.owner.clone() } else { anyone.clone() }; let p = !g.paused;
                     if p && !scripted && r.chance(1, 2) { continue; }
                     let (ok, _, _) = g.its_tx("pause", &caller, if p { "pause" } else { "unpause" }, vec![], 0, &[], json!({"paused": p})); if ok { g.paused = p;
-                        if p { for _ in 0..(1 + r.below(3)) { script.push(*r.pick(&[4u64, 5, 6, 7, 2, 0, 14, 15, 17, 20, 8])); } script.push(10); } } }
+                        if p && !scripted { for _ in 0..(1 + r.below(3)) { script.push(*r.pick(&[4u64, 5, 6, 7, 2, 0, 14, 15, 17, 20, 8])); } script.push(10); } } }
                 11 => { let caller = if r.chance(3, 4) { g.owner.clone() } else { anyone.clone() };
                     let chain = r.pick(&[&b"ethereum"[..], b"avalanche", b"axelar", b"polygon", b""]).to_vec();
                     if r.chance(1, 2) { g.its_tx("removeTrusted", &caller, "removeTrustedAddress", vec![chain.clone()], 0, &[], json!({"chain": hx(&chain)})); }
@@ -409,6 +433,12 @@ pub fn run(seed: u64, ntraces: usize) {
                         json!({"salt": hx(&salt), "dchain": hx(&dchain), "dtoken": hx(&dtok), "ty": ty, "params": hx(b"params")})); }
                 18 => { let caller = if r.chance(1, 2) { g.operator.clone() } else { anyone.clone() }; let na = r.pick(&g.users).clone();
                     let (ok, _, _) = g.its_tx("transferOp", &caller, "transferOperatorship", vec![na.to_vec()], 0, &[], json!({"a": hx(na.as_bytes())})); if ok { g.operator = na; } }
+                42 => { // directed: remote deployment naming the service itself as minter, no destination minter
+                    let Some(tk) = g.toks.iter().rev().find(|t| t.kind == "native") else { continue; };
+                    let (deployer, salt) = (tk.deployer.clone(), tk.salt.clone()); let (minter, dchain) = (g.its.to_vec(), b"ethereum".to_vec());
+                    g.its_tx("deployRemote", &deployer, "deployRemoteInterchainTokenWithMinter", vec![salt.clone(), minter.clone(), dchain.clone()], 1000, &[],
+                        json!({"salt": hx(&salt), "minter": hx(&minter), "dchain": hx(&dchain), "dminter": Value::Null}));
+                }
                 40 | 41 => { // directed: the nominated minter of the last native token approves (40) / the deployer uses (41) a remote deployment with a custom minter
                     let Some(tk) = g.toks.iter().rev().find(|t| t.kind == "native" && t.minter.len() == 32) else { continue; };
                     let (deployer, salt, minter) = (tk.deployer.clone(), tk.salt.clone(), tk.minter.clone());
@@ -483,7 +513,8 @@ pub fn run(seed: u64, ntraces: usize) {
                             let (forged, resj) = match which {
                                 0 => (TxResult { result_status: 4, result_message: "no such token".to_string(), ..TxResult::empty() }, Value::Null),
                                 1 | 2 => (TxResult { result_values: vec![b"Name".to_vec(), other_ty.to_vec(), vec![], vec![], vec![], b"NumDecimals-0".to_vec()], ..TxResult::empty() }, json!([hx(b"Name"), hx(other_ty), hx(b"NumDecimals-0")])),
-                                _ => (TxResult { result_values: vec![b"TokName".to_vec(), b"FungibleESDT".to_vec(), vec![], vec![], vec![], b"NumDecimals-18".to_vec()], ..TxResult::empty() }, json!([hx(b"TokName"), hx(b"FungibleESDT"), hx(b"NumDecimals-18")])),
+                                _ => { let dec: &[u8] = *r.pick(&[&b"NumDecimals-18"[..], b"NumDecimals-18", b"NumDecimals-6", b"NumDecimals-0", b"NumDecimals-9", b"NumDecimals-10", b"NumDecimals-255"]);
+                                       (TxResult { result_values: vec![b"TokName".to_vec(), b"FungibleESDT".to_vec(), vec![], vec![], vec![], dec.to_vec()], ..TxResult::empty() }, json!([hx(b"TokName"), hx(b"FungibleESDT"), hx(dec)])) }
                             };
                             let cb = async_callback_tx_input(ac, &forged, &g.w.r.blockchain_mock.vm.builtin_functions);
                             let caller_hex = hx(&cb.from.to_vec());
